@@ -243,9 +243,23 @@ func (p *c13) Run(w *lib.Worker, idx int, r *lib.Rand) lib.Case {
 
 	var got bool
 	var msg string
+	jsonNumberHelper := false
 	o := sut.Guard(func() sut.Outcome {
 		switch entry {
 		case "native":
+			if idx%16 == 7 {
+				// the same helpers with the value as a json.Number (what a decoder with UseNumber hands to a caller who
+				// passes it on): the verdict is judged on the number; the library reads a json.Number as 0 here (recorded)
+				if txt := n.v.FloatString(12); n.v.IsInt() || rat(strings.TrimRight(txt, "0")).Cmp(n.v) == 0 {
+					if n.v.IsInt() {
+						txt = n.v.Num().String()
+					} else {
+						txt = strings.TrimRight(txt, "0")
+					}
+					n.carrier, jsonNumberHelper = json.Number(txt), true
+					render += " carried by json.Number(" + txt + ")"
+				}
+			}
 			var e any
 			switch n.op {
 			case "max", "maxx":
@@ -379,6 +393,17 @@ func (p *c13) Run(w *lib.Worker, idx int, r *lib.Rand) lib.Case {
 	sample["implementation_says_ok"] = got
 	sample["message"] = msg
 	// recorded deviations
+	if jsonNumberHelper {
+		// explained iff the helper's answer is the answer exact arithmetic gives for the value 0
+		zero := *n
+		zero.v = new(big.Rat)
+		if got == zero.expected() {
+			c.Known = []string{"json-number-read-as-zero-by-native-type-helpers"}
+			c.KnownWhat = fmt.Sprintf("%s exact=%v impl=%v (the answer for 0) %s", render, want, got, msg)
+			c.Sample = sample
+			return c
+		}
+	}
 	if entry == "schema-jsonnumber" && !got && !strings.Contains(render, `"type"`) && strings.Contains(msg, "must be of type string") {
 		c.Known = []string{"json-number-rejected-without-declared-numeric-type"}
 		c.KnownWhat = fmt.Sprintf("%s exact=%v impl=%v %s", render, want, got, msg)
